@@ -124,139 +124,126 @@ Inductive mop :=
 | OReissue (c : N) (w : which)   (* CertificateReceived for a certified key: the parent re-issued its certificate *)
 | OClean (r : N).          (* repository synchronisation: deprecated r emptied and forgotten *)
 
-(** The step function is parametric in [has_old_repo] so that the variant can be run through it as well. *)
-Section Step.
-  (** publishing.rs 600-612 *)
-  Definition deprecate (hor : cstate -> N -> bool) (st : mstate) (r : N) : mstate :=
-    if existsb (fun kv => hor (snd kv) r) (m_classes st) then st
-    else mkM (m_repo st) (m_classes st) (m_depr st ++ [r]).
+(** The step function is parametric in three places so that earlier behaviour of the code can be run through it as
+    regression witnesses:
+    - [v_hor]: [has_old_repo] (the variant looks at the staging set only in the Staging arm);
+    - [v_reissue_keeps]: a certificate re-issued for a key that is tied to an old repository keeps naming that
+      repository (since /repo c6a66d92; before, [CertifiedKey.old_repo] was never set and the request named the CA's
+      current repository - finding F04d);
+    - [v_undeprecate]: a migration takes its target off the deprecated list (since /repo 1c1bdf32; before, the target
+      could stay on the list and was emptied by the next synchronisation - finding F04e). *)
+Record variant := mkV { v_hor : cstate -> N -> bool; v_reissue_keeps : bool; v_undeprecate : bool }.
 
-  Definition with_classes (st : mstate) (l : list (N * cstate)) : mstate := mkM (m_repo st) l (m_depr st).
+Definition fixed : variant := mkV class_has_old_repo true true.
+Definition weak : variant := mkV class_has_old_repo_weak true true.
+Definition pinned_key : variant := mkV class_has_old_repo false true.
+Definition pinned_depr : variant := mkV class_has_old_repo true false.
 
-  Definition reissue (repo : N) (cs : cstate) (w : which) : option cstate :=
-    (* keys.rs 445-518: the request for a certified key names [key.old_repo.unwrap_or(base_repo)]; the key's
-       old_repo is only ever set by [set_old_repo_if_in_active_state] (keys.rs 816-820), which the RepoUpdated
-       event reaches after the roll events of the same command have moved every class out of the Active state
-       (certauth.rs 2170-2197, 651-659) - so the request always names the CA's current repository. *)
-    match cs, w with
-    | MCur p c, WCur => Some (MCur p (mkSet (s_old c) repo))
-    | MStg s c, WStg => Some (MStg (mkSet (s_old s) repo) c)
-    | MStg s c, WCur => Some (MStg s (mkSet (s_old c) repo))
-    | MOld c o, WCur => Some (MOld (mkSet (s_old c) repo) o)
-    | MOld c o, WOld => Some (MOld c (mkSet (s_old o) repo))
-    | _, _ => None
-    end.
+(** publishing.rs 600-612 *)
+Definition deprecate (hor : cstate -> N -> bool) (st : mstate) (r : N) : mstate :=
+  if existsb (fun kv => hor (snd kv) r) (m_classes st) then st
+  else mkM (m_repo st) (m_classes st) (m_depr st ++ [r]).
 
-  Definition mstep_gen (hor : cstate -> N -> bool) (st : mstate) (op : mop) : option mstate :=
-    let cl := m_classes st in
-    match op with
-    | ONewClass c =>
-        match cget c cl with
-        | None => Some (with_classes st (cset c (MPend (m_repo st)) cl))
-        | Some _ => None
-        end
-    | OAddClass c =>
-        match cget c cl with
-        | Some (MPend r) => Some (with_classes st (cset c (MCur None (mkSet None r)) cl))
-        | _ => None
-        end
-    | OInit c =>
-        match cget c cl with
-        | Some (MCur None cur) => Some (with_classes st (cset c (MCur (Some (m_repo st)) cur) cl))
-        | _ => None
-        end
-    | OUpdateRepo r =>
-        if r =? m_repo st then None                       (* certauth.rs 2164-2166 *)
-        else if forallb (fun kv => idle (snd kv)) cl      (* certauth.rs 2175-2179 *)
-        then Some (mkM r (map (fun kv => (fst kv, start_roll r (class_set_old (m_repo st) (snd kv)))) cl) (m_depr st))
-        else None
-    | OStage c =>
-        match cget c cl with
-        | Some (MCur (Some r) cur) => Some (with_classes st (cset c (MStg (mkSet None r) cur) cl))
-        | _ => None
-        end
-    | OActivate c =>
-        match cget c cl with
-        | Some (MStg stg cur) => Some (with_classes st (cset c (MOld stg cur) cl))
-        | _ => None
-        end
-    | OFinish c =>
-        match cget c cl with
-        | Some (MOld cur old) =>
-            let st1 := with_classes st (cset c (MCur None cur) cl) in
-            Some (match s_old old with Some r => deprecate hor st1 r | None => st1 end)
-        | _ => None
-        end
-    | ORemoveClass c =>
-        match cget c cl with
-        | Some cs =>
-            let st1 := with_classes st (cdel c cl) in
-            Some (match class_old_repo cs with Some r => deprecate hor st1 r | None => st1 end)
-        | None => None
-        end
-    | OReissue c w =>
-        match cget c cl with
-        | Some cs => match reissue (m_repo st) cs w with
-                     | Some cs' => Some (with_classes st (cset c cs' cl))
-                     | None => None
-                     end
-        | None => None
-        end
-    | OClean r => Some (mkM (m_repo st) cl (filter (fun x => negb (x =? r)) (m_depr st)))   (* publishing.rs 405-407 *)
-    end.
+Definition with_classes (st : mstate) (l : list (N * cstate)) : mstate := mkM (m_repo st) l (m_depr st).
 
-  Fixpoint run_gen (hor : cstate -> N -> bool) (st : mstate) (ops : list mop) : option mstate :=
-    match ops with
-    | [] => Some st
-    | op :: r => match mstep_gen hor st op with Some st' => run_gen hor st' r | None => None end
-    end.
-End Step.
+(** keys.rs 445-518: the request for a certified key names [key.old_repo.unwrap_or(base_repo)]. The key-level
+    [old_repo] is set by the RepoUpdated event on the current key of every class ([set_old_repo_if_in_active_state],
+    keys.rs 820-828: Active or RollPending - the roll events of the same command are applied first, certauth.rs
+    2170-2197, 651-659), i.e. on exactly the keys whose sets [CaObjects::update_repo] marks, and it travels with the
+    key through the roll (rc.rs 969-996 clone the keys) as the set's mark does: the two coincide, so the model reads
+    the set's mark. *)
+Definition reissued (keeps : bool) (repo : N) (s : kset) : kset :=
+  mkSet (s_old s) (if keeps then publishes_at repo s else repo).
 
-Definition mstep := mstep_gen class_has_old_repo.
-Definition run := run_gen class_has_old_repo.
-Definition mstep_weak := mstep_gen class_has_old_repo_weak.
-Definition run_weak := run_gen class_has_old_repo_weak.
+Definition reissue (keeps : bool) (repo : N) (cs : cstate) (w : which) : option cstate :=
+  match cs, w with
+  | MCur p c, WCur => Some (MCur p (reissued keeps repo c))
+  | MStg s c, WStg => Some (MStg (reissued keeps repo s) c)
+  | MStg s c, WCur => Some (MStg s (reissued keeps repo c))
+  | MOld c o, WCur => Some (MOld (reissued keeps repo c) o)
+  | MOld c o, WOld => Some (MOld c (reissued keeps repo o))
+  | _, _ => None
+  end.
+
+Definition mstep_gen (v : variant) (st : mstate) (op : mop) : option mstate :=
+  let cl := m_classes st in
+  match op with
+  | ONewClass c =>
+      match cget c cl with
+      | None => Some (with_classes st (cset c (MPend (m_repo st)) cl))
+      | Some _ => None
+      end
+  | OAddClass c =>
+      match cget c cl with
+      | Some (MPend r) => Some (with_classes st (cset c (MCur None (mkSet None r)) cl))
+      | _ => None
+      end
+  | OInit c =>
+      match cget c cl with
+      | Some (MCur None cur) => Some (with_classes st (cset c (MCur (Some (m_repo st)) cur) cl))
+      | _ => None
+      end
+  | OUpdateRepo r =>
+      if r =? m_repo st then None                       (* certauth.rs 2164-2166 *)
+      else if forallb (fun kv => idle (snd kv)) cl      (* certauth.rs 2175-2179 *)
+      then Some (mkM r (map (fun kv => (fst kv, start_roll r (class_set_old (m_repo st) (snd kv)))) cl)
+                     (if v_undeprecate v then filter (fun x => negb (x =? r)) (m_depr st) else m_depr st))  (* publishing.rs 590-600 *)
+      else None
+  | OStage c =>
+      match cget c cl with
+      | Some (MCur (Some r) cur) => Some (with_classes st (cset c (MStg (mkSet None r) cur) cl))
+      | _ => None
+      end
+  | OActivate c =>
+      match cget c cl with
+      | Some (MStg stg cur) => Some (with_classes st (cset c (MOld stg cur) cl))
+      | _ => None
+      end
+  | OFinish c =>
+      match cget c cl with
+      | Some (MOld cur old) =>
+          let st1 := with_classes st (cset c (MCur None cur) cl) in
+          Some (match s_old old with Some r => deprecate (v_hor v) st1 r | None => st1 end)
+      | _ => None
+      end
+  | ORemoveClass c =>
+      match cget c cl with
+      | Some cs =>
+          let st1 := with_classes st (cdel c cl) in
+          Some (match class_old_repo cs with Some r => deprecate (v_hor v) st1 r | None => st1 end)
+      | None => None
+      end
+  | OReissue c w =>
+      match cget c cl with
+      | Some cs => match reissue (v_reissue_keeps v) (m_repo st) cs w with
+                   | Some cs' => Some (with_classes st (cset c cs' cl))
+                   | None => None
+                   end
+      | None => None
+      end
+  | OClean r => Some (mkM (m_repo st) cl (filter (fun x => negb (x =? r)) (m_depr st)))   (* publishing.rs 405-407 *)
+  end.
+
+Fixpoint run_gen (v : variant) (st : mstate) (ops : list mop) : option mstate :=
+  match ops with
+  | [] => Some st
+  | op :: r => match mstep_gen v st op with Some st' => run_gen v st' r | None => None end
+  end.
+
+Definition mstep := mstep_gen fixed.
+Definition run := run_gen fixed.
 
 Definition minit (r0 : N) : mstate := mkM r0 [] [].
 
 (** The repository synchronisation as far as this state is concerned: every deprecated repository is cleaned. *)
 Definition msync (st : mstate) : option mstate := run st (map OClean (m_depr st)).
 
-(** What the theorems ask of the environment (see MigrateProofs.v for why each is needed):
-    - a migration does not target a repository that is still waiting for its clean-up;
-    - for "every set publishes where its certificate points": no certificate is re-issued for a key whose set is
-      marked with an old repository. *)
-Definition admissible (st : mstate) (op : mop) : Prop :=
-  match op with OUpdateRepo r => ~ In r (m_depr st) | _ => True end.
+(** Every state that any sequence of accepted operations leads to - no assumption about the environment. *)
+Inductive reachable_gen (v : variant) (r0 : N) : mstate -> Prop :=
+| reach_init : reachable_gen v r0 (minit r0)
+| reach_step st op st' : reachable_gen v r0 st -> mstep_gen v st op = Some st' -> reachable_gen v r0 st'.
 
-Definition chosen_set (cs : cstate) (w : which) : option kset :=
-  match cs, w with
-  | MCur _ c, WCur => Some c
-  | MStg s _, WStg => Some s
-  | MStg _ c, WCur => Some c
-  | MOld c _, WCur => Some c
-  | MOld _ o, WOld => Some o
-  | _, _ => None
-  end.
-
-Definition admissible_loc (st : mstate) (op : mop) : Prop :=
-  match op with
-  | OReissue c w => forall cs s, cget c (m_classes st) = Some cs -> chosen_set cs w = Some s -> s_old s = None
-  | _ => True
-  end.
-
-Inductive reachable (r0 : N) : mstate -> Prop :=
-| reach_init : reachable r0 (minit r0)
-| reach_step st op st' : reachable r0 st -> admissible st op -> mstep st op = Some st' -> reachable r0 st'.
-
-Inductive reachable_loc (r0 : N) : mstate -> Prop :=
-| reachl_init : reachable_loc r0 (minit r0)
-| reachl_step st op st' : reachable_loc r0 st -> admissible st op -> admissible_loc st op ->
-                          mstep st op = Some st' -> reachable_loc r0 st'.
-
-Inductive reachable_any (r0 : N) : mstate -> Prop :=
-| reacha_init : reachable_any r0 (minit r0)
-| reacha_step st op st' : reachable_any r0 st -> mstep st op = Some st' -> reachable_any r0 st'.
+Definition reachable := reachable_gen fixed.
 
 (** The statements. *)
 Definition safe (st : mstate) : Prop :=
